@@ -157,7 +157,7 @@ let oracle_c03_case script trace =
     (match nf_oracle (!fx).fx_cfg (List.rev !steps) with
      | (Some (idx, code), _) -> Some (Printf.sprintf "op=%s rule=%s class=delivery-rule" (zs idx) (zs code))
      | (None, Some (idx, code)) ->
-       Some (Printf.sprintf "op=%s class=%s" (zs idx) (match int_of_z code with 101 -> "nomore-reset" | 100 -> "stale-after-disabled-recovery" | _ -> "unknown-finding-code"))
+       Some (Printf.sprintf "op=%s class=%s" (zs idx) (if int_of_z code = 101 then "nomore-reset" else "unknown-finding-code"))
      | (None, None) -> None)
 
 let () =
